@@ -21,17 +21,7 @@ TRANSLATORS = []
 # known_findings.json (or repairs halmos), a failing input whose sig matches is printed as
 # KNOWN-FINDING and recorded in the evidence instead of failing the run; any other
 # violation of the property still fails.
-KNOWN = [
-    {
-        "id": "C07-F1",
-        "property": "C07",
-        "what": "ByteVec.__setitem__ with a slice whose stop is an explicit 0 (`bv[a:0] = v`) computes `stop = key.stop or self.length`, "
-                "so the write goes to [a, len) instead of being rejected (stop < start) or being the no-op [0:0]; "
-                "e.g. bv = ByteVec(b'\\x01\\x02\\x03\\x04'); bv[2:0] = b'\\x08\\x09' leaves 01 02 08 09 (a flat array rejects it), and bv[0:0] = b'' raises ValueError. "
-                "__getitem__ handles the same key correctly (`key.stop if key.stop is not None`). The sugar is not used inside halmos (set_slice is called directly).",
-        "match": {"observable": "setitem-explicit-stop-0"},
-    },
-]
+KNOWN = common.known_for("C07")  # entries live in /verif/known_findings.json
 
 PARTIAL = (
     "CPython aliasing outside the modelled object store (two Exec objects holding the same ByteVec by reference) "
